@@ -601,6 +601,9 @@ func runC07(ctx *Ctx) *Result {
 	}
 	rng := NewRng(ctx.Seed)
 	c07UnitCorr(ctx, res, rng.Fork())
+	if res.Broken == "" {
+		c07CvsUnit(ctx, res, NewRng(ctx.Seed^0xc07c5))
+	}
 	type treeInfo struct {
 		g   *GenTree
 		reg c07Regress
@@ -733,6 +736,9 @@ func runC07(ctx *Ctx) *Result {
 	if res.Broken == "" {
 		c07RegistryStage(ctx, res, rng, p)
 	}
+	if res.Broken == "" {
+		c07EnvStage(ctx, res, rng.Fork())
+	}
 	res.DistinctNontrivial = len(nontrivial)
 	res.Rule = fmt.Sprintf("a case = (generated tree, cwd, argv); every case is run %d times in fresh processes and %d times inside child processes that run a seeded permutation of the cases of %d trees each (fresh G per run), all outputs compared byte for byte with the first fresh run. Non-trivial = a case for which the shim's probe saw at least 2 of the long-lived audited maps (master sites, tools, doc/CHANGES entries, user-defined variables) with >= 3 keys; the per-package maps (PLIST files/dirs, includes, options, SUBST, scopes) have >= 3 keys in every Rich tree by construction. Go draws a fresh random start for every `range`; for a loop over >= 3 keys whose order reaches the output, k independent runs all agree with probability <= (1/3)^(k-1) (only the first key matters) resp. (1/6)^(k-1) (the whole order of 3 keys matters): with %d runs per case that is <= %.1e per case, and every audited loop is reached by dozens of cases.",
 		p.nFresh, p.nSeq, p.batch, p.nFresh+p.nSeq, pow(1.0/3, p.nFresh+p.nSeq-1))
@@ -757,6 +763,9 @@ func runC07(ctx *Ctx) *Result {
 		res.Broken = fmt.Sprintf("only %d diagnostics in %d cases: the generated trees are too clean to show an order", d, len(cases))
 	}
 	c07AuditNumbers(ctx, res)
+	if res.Broken == "" {
+		c07CwdLinkStage(ctx, res) // after the floors: its recorded finding must not switch them off
+	}
 	res.Assumptions = []string{
 		"same user, same environment, same wall-clock year (pkglint reads user.Current; nothing else from the environment)",
 		"the trees are not modified between the runs (cases with -F run on identical copies)",
@@ -1061,6 +1070,8 @@ func c07Strings(v any) []string {
 func replayC07(ctx *Ctx, rep map[string]any) *Result {
 	res := &Result{Rule: "replay"}
 	switch rep["kind"] {
+	case "env":
+		return replayC07Env(ctx, rep)
 	case "nondet":
 		root := filepath.Join(ctx.Work, "replay")
 		files, _ := rep["files"].(map[string]any)
